@@ -249,13 +249,18 @@ partial def sysOfJson (j : Json) : Except String Sys := do
       | .ok v => do pure (.fixed (← fromJson? (α := Nat) v) (← sysOfJson (← j.getObjVal? "e")))
       | .error _ =>
         match j.getObjVal? "tie" with
-        | .ok v => do pure (.tie (← sysOfJson v) (← tbOfJson (← j.getObjVal? "tb")))
+        | .ok v => do
+            let dflt := (j.getObjValAs? Bool "default_subsetter").toOption.getD true
+            pure (.tie (← sysOfJson v) (← tbOfJson (← j.getObjVal? "tb")) dflt)
         | .error _ => do
           let fl ← j.getObjValAs? (List Bool) "tv"
           let q := (j.getObjValAs? String "quota").toOption
           let m ← j.getObjValAs? Bool "mandatory"
           match fl with
-          | [a, b, c] => pure (.tv a b c q m)
+          | [a, b, c] =>
+              let ae := (j.getObjValAs? Bool "accept_equal").toOption.getD true
+              let sel := (j.getObjValAs? Bool "selector").toOption.getD true
+              pure (.tv a b c q m ae sel)
           | _ => throw "bad tv flags"
 
 def summaryJson (s : Summary) : Json :=
@@ -356,6 +361,20 @@ def loadedJson (r : Doc Rat × List (String × Bool) × Summary) : Json :=
     ("ballots", Json.arr (r.1.ballots.map (fun b => Json.arr #[toJson b.1, ratJson b.2])).toArray),
     ("system", summaryJson r.2.2)]
 
+/-- `"cls": [[item, rank | "dash"], ...]`: how isdecimal()/int() and `== '-'` classify the items of the vote lines; any
+    other item is `bad` -/
+def clsOfJson (j : Json) : Except String (String → OItem) := do
+  match j.getObjVal? "cls" with
+  | .ok (.arr a) => do
+      let tbl ← a.toList.mapM (fun e => do
+        let pr ← e.getArr?
+        match pr.toList with
+        | [k, .str "dash"] => do pure ((← k.getStr?), OItem.dash)
+        | [k, v] => do pure ((← k.getStr?), OItem.rank (← fromJson? (α := Nat) v))
+        | _ => throw "bad cls entry")
+      pure (fun s => (tbl.lookup s).getD OItem.bad)
+  | _ => pure (fun _ => OItem.bad)
+
 def handleStv (op : String) (j : Json) : Option (Except String Json) :=
   match op with
   | "stv_dump" => some do
@@ -367,21 +386,31 @@ def handleStv (op : String) (j : Json) : Option (Except String Json) :=
     | .error e => pure (Json.mkObj [("dump", errJson e)])
     | .ok (h, v) =>
       pure (Json.mkObj [("hdr", Json.arr (h.map hlineJson).toArray), ("votes", Json.arr (v.map vlineJson).toArray),
-        ("loaded", resJson loadedJson (loadStv h v [])), ("wf", Json.bool (wfStv d))])
+        ("loaded", resJson loadedJson (loadStv (fun _ => .bad) h v [])), ("wf", Json.bool (wfStv d))])
   | "stv_dump_blt" => some do
     let d ← VL.Drv.C19.docOfJson (← j.getObjVal? "doc")
     match dumpStvBlt d with
     | .error e => pure (Json.mkObj [("dump", errJson e), ("wf", Json.bool (Blt.WFdoc d))])
     | .ok (h, ls) =>
       pure (Json.mkObj [("hdr", Json.arr (h.map hlineJson).toArray), ("lines", Json.arr (ls.map lineJson).toArray),
-        ("loaded", resJson loadedJson (loadStv h [] ls)), ("wf", Json.bool (Blt.WFdoc d))])
+        ("loaded", resJson loadedJson (loadStv (fun _ => .bad) h [] ls)), ("wf", Json.bool (Blt.WFdoc d))])
+  | "stv_sys" => some do
+    let sys ← sysOfJson (← j.getObjVal? "sys")
+    let arg := (j.getObjValAs? Nat "seats_arg").toOption
+    let lines : Json := match dumpSys sys with
+      | .error e => errJson e
+      | .ok ls => Json.arr (ls.map (fun p => Json.arr #[Json.str p.1, svalJson p.2])).toArray
+    pure (Json.mkObj [("lines", lines), ("reload", resJson summaryJson (reloadSys sys arg)),
+      ("refused", Json.bool (sysRefused sys)), ("readable", Json.bool (sysReadable sys arg)),
+      ("lossy", Json.bool (lossy sys)), ("complete", Json.bool (sysComplete sys arg))])
   | "stv_load" => some do
     let h ← (← (← j.getObjVal? "hdr").getArr?).toList.mapM hlineOfJson
     let v ← (← (← j.getObjVal? "votes").getArr?).toList.mapM vlineOfJson
     let bl ← (match j.getObjVal? "blt" with
       | .ok (.arr a) => a.toList.mapM lineOfJson
       | _ => pure [])
-    pure (Json.mkObj [("loaded", resJson loadedJson (loadStv h v bl))])
+    let cls ← clsOfJson j
+    pure (Json.mkObj [("loaded", resJson loadedJson (loadStv cls h v bl))])
   | _ => none
 end Stv
 
